@@ -10,4 +10,5 @@ CONSTANTS
   JumpMags = {16, 32}
   QStale = TRUE
   QExact0 = FALSE
+  QBackstep = FALSE
 INVARIANTS Bounds Residual WalkerMeaning PathIndependent SmallIsStep
